@@ -515,6 +515,10 @@ def _refill_rules(col, cx, r, sfx):
             bytes_t = zt  # `0 => eof = true` leaves end as it is: end += 0
         okb = bytes_t is not None and any(s == rd.res for s in subterms(bytes_t)) and (zt is None or zt == bytes_t)
         oke = zero is not None and ((zero and len(eofst) == 1 and eofst[0].val == mk_int(1)) or (not zero and not eofst))
+        if zero is None and len(eofst) == 1 and bytes_t is not None and eofst[0].val in (("bin", "Eq", bytes_t, mk_int(0)), ("bin", "Eq", mk_int(0), bytes_t)):
+            # eof = (bytes == 0): the flag is the test itself
+            oke = True
+            zero = "flag"
         key = "%s|advance|%s|%s" % (fk(b), "compact" if compact else "plain", "zero" if zero else "nonzero")
         if okb and oke:
             col.ok("W2" + sfx, b.loc(rd.bb), key, "end += bytes; eof %s" % ("set (bytes == 0)" if zero else "untouched (bytes != 0)"))
